@@ -4,13 +4,14 @@ use crate::gen::automaton::dump_automaton;
 use crate::gen::grammar::{self, GenCfg};
 use crate::gen::parse::{lr_terminates, parse_actions, parse_generic_shape};
 use crate::gen::sentences::inputs_for;
+use crate::gen::worker::{WResult, Worker};
 use crate::out::{guarded, plist, Out};
 use crate::rng::Rng;
 use crate::Args;
 use lrpar::RecoveryKind;
 use lrtable::{from_yacc, Minimiser};
 
-pub fn emit(out: &mut Out, text: &str, rng: &mut Rng, thorough: bool, kind: &str, prop: &str) {
+pub fn emit(out: &mut Out, worker: &mut Worker, text: &str, rng: &mut Rng, thorough: bool, kind: &str, prop: &str) {
     let g = match grammar::build(text) {
         Ok(g) => g,
         Err(_) => {
@@ -33,6 +34,10 @@ pub fn emit(out: &mut Out, text: &str, rng: &mut Rng, thorough: bool, kind: &str
     let mut n_acc = 0;
     let mut n_err = 0;
     let mut n_div = 0;
+    let mut n_rec = 0u64;
+    let mut n_slow = 0u64;
+    let mut n_hang = 0u64;
+    let rec_budget: u64 = if thorough { 40 } else { 10 };
     for (k, w) in inputs.iter().enumerate() {
         if !lr_terminates(&g, &st, w, 400 * (w.len() + 2)) {
             // the plain LR loop does not terminate on this table/input (C07's finding); not parsed
@@ -66,6 +71,27 @@ pub fn emit(out: &mut Out, text: &str, rng: &mut Rng, thorough: bool, kind: &str
                     ilines.push(format!("{} err {} {}", k, e.laidx(w.len()), e.state));
                     accepted.push(0);
                     n_err += 1;
+                    if prop == "C04" && w.len() <= 8 && n_rec < rec_budget && n_slow + n_hang < 2 {
+                        // with recovery on, the first reported error is at that same lexeme, in that state
+                        // (killable worker: the recovery loop has no bound of its own)
+                        match worker.parse(text, w, true, None, std::time::Duration::from_millis(2500)) {
+                            WResult::Ok(p2) if p2.wall_ms < 450 => {
+                                n_rec += 1;
+                                match p2.errors.first() {
+                                    Some(e2) if e2.laidx == e.laidx(w.len()) && e2.state == e.state => {}
+                                    other => {
+                                        hfail.get_or_insert(format!(
+                                            "recovery on: first error {:?} but recovery off reports lexeme {} state {} on {:?}",
+                                            other.map(|x| (x.laidx, x.state)), e.laidx(w.len()), e.state, w));
+                                    }
+                                }
+                            }
+                            WResult::Ok(_) => n_slow += 1,
+                            WResult::Hang => n_hang += 1,
+                            WResult::NoGrammar => {}
+                            WResult::Panic(m) => { hfail.get_or_insert(format!("recovering parser panicked on {:?}: {}", w, m)); }
+                        }
+                    }
                 }
                 (t, n) => {
                     ilines.push(format!("{} odd value={} errors={}", k, t.is_some(), n));
@@ -100,6 +126,9 @@ pub fn emit(out: &mut Out, text: &str, rng: &mut Rng, thorough: bool, kind: &str
     out.add("inputs_accepted", n_acc);
     out.add("inputs_rejected", n_err);
     out.add("inputs_lr_diverges", n_div);
+    out.add("recovering_parses_compared", n_rec);
+    out.add("recovering_parses_inconclusive_slow", n_slow);
+    out.add("recovering_parses_not_returning", n_hang);
     if out.next_id % 37 == 1 {
         out.sample(desc);
     }
@@ -119,12 +148,13 @@ fn shape_of(g: &cfgrammar::yacc::YaccGrammar<u32>, t: &crate::gen::parse::PTree)
 
 pub fn run_prop(a: &Args, prop: &str, pnum: u64) {
     let mut out = Out::new(&a.out);
+    let mut worker = Worker::new();
     if let Some(rp) = &a.replay {
         let txt = std::fs::read_to_string(rp).unwrap_or_default();
         let mut rng = Rng::for_case(a.seed, pnum, 0);
         for line in txt.lines() {
             if let Some(rest) = line.strip_prefix("# G ") {
-                emit(&mut out, &rest.replace("\\n", "\n"), &mut rng, a.thorough, "replay", prop);
+                emit(&mut out, &mut worker, &rest.replace("\\n", "\n"), &mut rng, a.thorough, "replay", prop);
             }
         }
         out.finish(&a.out);
@@ -133,7 +163,7 @@ pub fn run_prop(a: &Args, prop: &str, pnum: u64) {
     if a.shard == 0 {
         let mut rng = Rng::for_case(a.seed, pnum, 0);
         for t in grammar::classics() {
-            emit(&mut out, t, &mut rng, a.thorough, "classic", prop);
+            emit(&mut out, &mut worker, t, &mut rng, a.thorough, "classic", prop);
         }
     }
     let n = if a.thorough { 4000 } else { 300 };
@@ -144,7 +174,7 @@ pub fn run_prop(a: &Args, prop: &str, pnum: u64) {
         let mut rng = Rng::for_case(a.seed, pnum, case as u64 + 1);
         let cfg = GenCfg { precs: rng.chance(1, 4), ..GenCfg::default() };
         let g = grammar::random_grammar(&mut rng, &cfg);
-        emit(&mut out, &g.render(), &mut rng, a.thorough, "random", prop);
+        emit(&mut out, &mut worker, &g.render(), &mut rng, a.thorough, "random", prop);
     }
     out.finish(&a.out);
 }
